@@ -989,6 +989,16 @@ func (it *Interp) step(i int, op *Op) {
 			it.step(i, &Op{K: "block", T: op.T})
 		}
 
+	case "ss0":
+		// the external side reports the signer set it was deployed with: nonce 0 (what the Hub2 constructor emits)
+		if sets := it.H.SignerSets(chain); len(sets) > 0 && w.SSNonce == 0 {
+			w.Events = append(w.Events, &mtypes.SignerSetTxExecutedEvent{
+				EventNonce: w.nextNonce(), SignerSetTxNonce: 0, ExternalHeight: w.Height, Members: sets[0].Signers, TxHash: w.txHash(),
+			})
+			it.Stats["exec-valset0"]++
+			it.relayAll(i, op, chain, 1000)
+		}
+
 	case "hb":
 		w.Events = append(w.Events, &mtypes.ContractCallExecutedEvent{
 			EventNonce: w.nextNonce(), InvalidationScope: []byte("hb"), InvalidationNonce: uint64(len(w.Events) + 1),
